@@ -477,7 +477,7 @@ fn eof_at(k: usize, o: &Opts, props: &FieldTable, kind: InEnd, res: &mut CaseRes
 
 pub fn run(rc: &mut RunCtx) {
     let seed = rc.seed;
-    let n = rc.n(500, 15000);
+    let n = rc.n(1200, 20000);
     for i in 0..n {
         let id = format!("script:{}", i);
         if !rc.mine(&id) {
